@@ -142,6 +142,11 @@ theorem dms_fields_range (D : ℚ) :
   have h1 : (frac1 D * 60).floor < (60 : ℤ) := Rat.floor_lt_iff.mpr (by push_cast; linarith)
   refine ⟨by exact_mod_cast h0, by exact_mod_cast h1, by linarith, by linarith⟩
 
+/-- Lagrange's identity: the speed is `|ω||r| sin θ`, and `v` is the right-handed rotation velocity -/
+theorem cross_norm (w r : V3) :
+    dot3 (cross w r) (cross w r) = dot3 w w * dot3 r r - dot3 w r * dot3 w r := by
+  simp only [cross, dot3]; ring
+
 /-! ### least squares -/
 
 theorem sum_resid (a b : ℚ) : ∀ (xs ys : List ℚ), xs.length = ys.length →
